@@ -125,4 +125,38 @@ theorem Built.push {α} (A B : List α) (di : List (POp α)) (i j : Nat) (e : PO
   rw [hout, ← hl]
   rw [← slice'_zero, slice'_append B 0 j _ (Nat.zero_le _) (by omega), slice'_zero]
 
+/-- entries in key order, each starting at or after the end of the previous one, all inside `N` -/
+def ChainFrom {α} (N : Nat) : Nat → List (POp α) → Prop
+  | _, [] => True
+  | t, e :: es => t ≤ e.key ∧ e.key + e.eat ≤ N ∧ ChainFrom N (e.key + e.eat) es
+
+theorem ChainFrom.snoc {α} {N t : Nat} {ops : List (POp α)} (h : ChainFrom N t ops) (xs : List α) (e : POp α)
+    (hk : (run ops t xs).2 ≤ e.key) (hN : e.key + e.eat ≤ N) : ChainFrom N t (ops ++ [e]) := by
+  induction ops generalizing t with
+  | nil =>
+    simp only [run] at hk
+    exact ⟨hk, hN, trivial⟩
+  | cons e0 es ih =>
+    obtain ⟨h1, h2, h3⟩ := h
+    simp only [run] at hk
+    have hm : max t (e0.key + e0.eat) = e0.key + e0.eat := by omega
+    rw [hm] at hk
+    exact ⟨h1, h2, ih h3 hk⟩
+
+/-- `Built` together with the chain discipline -/
+def BuiltC {α} (A B : List α) (di : List (POp α)) (i j : Nat) : Prop :=
+  Built A B di i j ∧ ChainFrom A.length 0 di
+
+theorem BuiltC.init {α} (A B : List α) : BuiltC A B [] 0 0 := ⟨Built.init A B, trivial⟩
+
+theorem BuiltC.keep {α} (A B : List α) (di : List (POp α)) (i j : Nat) (h : BuiltC A B di i j)
+    (hi : i < A.length) (hj : j < B.length) (heq : A[i] = B[j]) : BuiltC A B di (i + 1) (j + 1) :=
+  ⟨Built.keep A B di i j h.1 hi hj heq, h.2⟩
+
+theorem BuiltC.push {α} (A B : List α) (di : List (POp α)) (i j : Nat) (e : POp α)
+    (h : BuiltC A B di i j) (hk : e.key = i) (hout : e.out = slice' B j (j + e.out.length))
+    (hjb : j + e.out.length ≤ B.length) (hN : i + e.eat ≤ A.length) :
+    BuiltC A B (di ++ [e]) (i + e.eat) (j + e.out.length) :=
+  ⟨Built.push A B di i j e h.1 hk hout hjb, h.2.snoc A e (by rw [hk]; exact h.1.1) (by rw [hk]; exact hN)⟩
+
 end Nbdime.Abs
